@@ -4,7 +4,7 @@
    but not its body, a conditional evaluates its test and then ONE branch - defined when both branches evaluate the
    same probes).  [src_*]: the order the language reference prescribes for the statement.  Theorems: they coincide. *)
 From Coq Require Import String List ZArith Bool Arith Lia.
-From OL Require Import Sexp PyAst Namespace Lower FuncDef.
+From OL Require Import Sexp PyAst Namespace Lower FuncDef ClassNs.
 From OLGen Require Import Tables.
 Import ListNotations.
 Open Scope string_scope.
@@ -65,6 +65,7 @@ Fixpoint events (e : expr) : option (list Z) :=
       | _, _ => None
       end
   | Lambda _ _ _ _ kd _ de _ => oapp (evl de) (evlo kd)       (* positional defaults, then keyword-only defaults *)
+  | EDict [] [] => Some []                                     (* the empty display the class creation passes *)
   | _ => None
   end.
 
@@ -288,4 +289,39 @@ Proof.
   unfold src_def. f_equal. cbn [events]. rewrite evl_events_seq. f_equal.
   clear. induction (a_kw_defaults args) as [|[x|] r IH]; cbn; [reflexivity| |]; rewrite IH; [reflexivity|].
   match goal with |- match ?X with _ => _ end = _ => destruct X; reflexivity end.
+Qed.
+
+(* CLASS HEADER: the bases, then the keywords in the order written - `metaclass=` among them (fix e4f4404) *)
+Lemma rmap_kws_stable g (kws : list (option ident * expr)) : Forall (fun kw => stable g (snd kw)) kws ->
+  rmap (fun kw => let! v := tr g (snd kw) in ret (fst kw, v)) kws = inl kws.
+Proof.
+  induction 1 as [|[k v] r Hx Hr IH]; [reflexivity|]. cbn [rmap snd fst] in *. unfold stable in Hx. rewrite Hx. cbn [rbind].
+  rewrite IH. reflexivity.
+Qed.
+
+Lemma evk_events_seq (kws : list (option ident * expr)) :
+  (fix evk (l : list (option ident * expr)) : option (list Z) :=
+     match l with [] => Some [] | kw :: r => oapp (events (snd kw)) (evk r) end) kws = events_seq (map snd kws).
+Proof. induction kws as [|kw r IH]; cbn; [reflexivity|]. rewrite IH. reflexivity. Qed.
+
+Theorem class_header_order : forall cfg g loops ru p name ln bases kws body decs es,
+  n_kind g = NGlobal -> Forall (stable g) bases -> Forall (fun kw => stable g (snd kw)) kws ->
+  lower_stmt cfg (mkCtx g loops ru) p (SClassDef name ln bases kws body decs) = inl es ->
+  exists create rest, es = create :: rest /\
+    events create = oapp (events_seq bases) (events_seq (map snd kws)).
+Proof.
+  intros cfg g loops ru p name ln bases kws body decs es Hg Hb Hk H.
+  destruct (classdef_shape _ _ _ _ _ _ _ _ _ _ H) as [cn [bases' [kws' [create [load [rest [A [B [C [D [E [F ->]]]]]]]]]]]].
+  cbn [c_nsp] in *.
+  rewrite (rmap_stable g _ Hb) in C. injection C as <-.
+  rewrite (rmap_kws_stable g kws Hk) in D. injection D as <-.
+  unfold get_assign in E. rewrite Hg in E. injection E as <-.
+  eexists _, rest. split; [reflexivity|]. cbn [events]. unfold class_create.
+  destruct (existsb is_meta_kw kws).
+  - cbn [events is_probe]. rewrite evk_events_seq, evl_events_seq.
+    destruct (events_seq bases), (events_seq (map snd kws)); cbn; rewrite ?app_nil_r; reflexivity.
+  - unfold cstr. cbn [events].
+    match goal with |- context [is_probe ?c] => assert (P : is_probe c = None) by (destruct kws; reflexivity); rewrite P end.
+    rewrite evk_events_seq. cbn [events]. rewrite evl_events_seq.
+    destruct (events_seq bases), (events_seq (map snd kws)); cbn; rewrite ?app_nil_r; reflexivity.
 Qed.
